@@ -47,7 +47,7 @@ func init() {
 }
 
 func render(class string, key []byte) interface{} {
-	return map[string]interface{}{"string": fmt.Sprintf("%q", string(key)), "hex": fw.Hex(key), "length": len(key)}
+	return map[string]interface{}{"string": fmt.Sprintf("%+q", string(key)), "hex": fw.Hex(key), "length": len(key)}
 }
 
 func ar(b bool) string {
@@ -102,7 +102,7 @@ func judge(class string, key []byte, o *fw.Obs) {
 			vc = "verdict-nonascii"
 			note = " (the input contains a non-ASCII byte)"
 		}
-		o.Fail(vc, "Decode(%q): BIP-173 model says %s (%s), implementation %s%s (err=%v, hrp=%q, data=%x)",
+		o.Fail(vc, "Decode(%+q): BIP-173 model says %s (%s), implementation %s%s (err=%v, hrp=%+q, data=%x)",
 			s, ar(mok), reason, ar(iok), note, err, hrp, data)
 		return
 	}
@@ -128,14 +128,14 @@ func judge(class string, key []byte, o *fw.Obs) {
 				if nonASCII {
 					vc = "offset-nonascii"
 				}
-				o.Fail(vc, "Decode(%q) (%d bytes): the error %q carries Offset %d, outside [0, %d]", s, len(s), err.Error(), se.Offset, len(s))
+				o.Fail(vc, "Decode(%+q) (%d bytes): the error %+q carries Offset %d, outside [0, %d]", s, len(s), err.Error(), se.Offset, len(s))
 			}
 		}
 		return
 	}
 	// accepted by both
 	if hrp != mhrp || !bytes.Equal(data, mdata) {
-		o.Fail("value", "Decode(%q) = (%q, %x), the model decodes (%q, %x)", s, hrp, data, mhrp, mdata)
+		o.Fail("value", "Decode(%+q) = (%+q, %x), the model decodes (%+q, %x)", s, hrp, data, mhrp, mdata)
 		return
 	}
 	o.Count(fmt.Sprintf("accepted, data symbols mod 8 = %d", nsym%8))
@@ -150,7 +150,7 @@ func judge(class string, key []byte, o *fw.Obs) {
 		return
 	}
 	if err != nil || back != bech32m.Lower(s) {
-		o.Fail("reencode", "Decode(%q) succeeded with (%q, %x) but Encode of that gives %q, err=%v; expected the lower-cased input", s, hrp, data, back, err)
+		o.Fail("reencode", "Decode(%+q) succeeded with (%+q, %x) but Encode of that gives %+q, err=%v; expected the lower-cased input", s, hrp, data, back, err)
 	}
 }
 
@@ -258,7 +258,8 @@ func base(r *rand.Rand, nsym int) string {
 	return s
 }
 
-var oddRunes = []string{"K", "İ", "ı", "ſ", "é", "Å", "\U0001f600", "̇"}
+// KELVIN SIGN, I WITH DOT ABOVE, DOTLESS I, LONG S, e acute, ANGSTROM SIGN, an emoji, COMBINING DOT ABOVE
+var oddRunes = []string{"\u212a", "\u0130", "\u0131", "\u017f", "\u00e9", "\u212b", "\U0001f600", "\u0307"}
 var badUTF8 = []string{"\x80", "\xff", "\xc0", "\xef", "\xe2\x84", "\xc4", "\xed\xa0\x80", "\xf8", "\xc0\xaa"}
 
 func replaceAt(s string, i int, with string) string { return s[:i] + with + s[i+1:] }
@@ -359,7 +360,7 @@ func variants(g *fw.Gen, s string) {
 		c    byte
 		with string
 	}
-	for _, sb := range []sub{{up, 'k', "K"}, {up, 'i', "İ"}, {s, 's', "ſ"}, {s, 'i', "ı"}, {s, 'k', "K"}, {up, 's', "ſ"}} {
+	for _, sb := range []sub{{up, 'k', "\u212a"}, {up, 'i', "\u0130"}, {s, 's', "\u017f"}, {s, 'i', "\u0131"}, {s, 'k', "\u212a"}, {up, 's', "\u017f"}} {
 		for _, rng := range [][2]int{{0, sep}, {sep + 1, n}} {
 			ps := positions(sb.str, rng[0], rng[1], sb.c)
 			if len(ps) == 0 {
@@ -410,7 +411,7 @@ func shortUnicode(g *fw.Gen) {
 func gen(g *fw.Gen) {
 	r := g.Rng
 	// every symbol count 0..84, several times over
-	reps := g.Pick(600, 18000)
+	reps := g.Pick(600, 54000)
 	idx := 0
 	for rep := 0; rep < reps; rep++ {
 		for nsym := 0; nsym <= 84; nsym++ {
@@ -421,7 +422,7 @@ func gen(g *fw.Gen) {
 		}
 	}
 	// whole-byte data of every length that fits, through the 8->5 regrouping of the model
-	for n := g.ShareOf(50000, 1500000); n > 0; n-- {
+	for n := g.ShareOf(50000, 4500000); n > 0; n-- {
 		nb := r.Intn(53)
 		syms, _ := bech32m.ConvertBits(g.Bytes(nb), 8, 5, true)
 		hmax := bech32m.MaxLen - 7 - len(syms)
@@ -434,12 +435,12 @@ func gen(g *fw.Gen) {
 		}
 		variants(g, bech32m.EncodeSymbols(randHRP(r, hl), syms))
 	}
-	for n := g.ShareOf(250000, 7500000); n > 0; n-- {
+	for n := g.ShareOf(250000, 22000000); n > 0; n-- {
 		shortUnicode(g)
 	}
 	// random byte strings and random strings over the charset and a few specials
 	alpha := bech32m.Charset + "11bioBIO QPZ\x00\x80\xff"
-	for n := g.ShareOf(1200000, 36000000); n > 0; n-- {
+	for n := g.ShareOf(1200000, 100000000); n > 0; n-- {
 		var b []byte
 		if n%4 == 0 {
 			b = g.Bytes(r.Intn(100))
